@@ -209,6 +209,179 @@ def _null_exit(body, k, sym):
     raise LaneCfgError("%s: exit %r not understood" % (sym, body[k]))
 
 
+JUNK, ZERO = "junk", "zero"
+
+
+def _vec_min(body, data, W, sym):
+    """Symbolic evaluation of the VECTOR min search on dword lanes: which lens[] elements the value that
+    becomes idx/len2 is the minimum of, and what is subtracted from every lane.  A lane value is JUNK, ZERO
+    or (frozenset of lens[] element indices, part, cleared low bits) with part 'w' (a 32-bit element) or
+    'lo'/'hi' (the halves of a 64-bit element).  Instruction selection, shuffles, whether the minimum ends
+    up in one lane or in all, whether the mask constant covers one dword or all - none of it matters:
+    -> (set of elements the extracted minimum ranges over, cleared bits of the subtrahend, elements
+    subtracted from).  Anything it cannot follow is an error that names the instruction."""
+    regs = {}                                   # register number -> 8 dword lanes
+    loaded = {}                                 # register number -> (byte offset, size) while it still holds lens[] unchanged
+    epd = W // 32                               # dwords per element
+
+    def rn(x):
+        m = re.fullmatch(r"([xy])mm(\d+)", x)
+        if not m:
+            raise LaneCfgError("%s: operand %r not understood in the min search" % (sym, x))
+        return int(m.group(2)), (4 if m.group(1) == "x" else 8)
+
+    def get(x):
+        n, w = rn(x)
+        return list(regs.get(n, [JUNK] * 8))[:w]
+
+    def put(x, lanes, vex):
+        n, w = rn(x)
+        old = list(regs.get(n, [JUNK] * 8))
+        regs[n] = lanes + ([ZERO] * 4 if vex else old[4:]) if w == 4 else lanes
+        loaded.pop(n, None)
+
+    def vmin(a, b):
+        out = []
+        for k in range(0, len(a), epd):
+            x, y = a[k:k + epd], b[k:k + epd]
+            ok = all(isinstance(v, tuple) and v[2] == 0 for v in x + y) and \
+                [v[1] for v in x] == [v[1] for v in y] == (["w"] if epd == 1 else ["lo", "hi"]) and \
+                len({v[0] for v in x}) == 1 and len({v[0] for v in y}) == 1
+            out += [(x[0][0] | y[0][0], v[1], 0) for v in x] if ok else [JUNK] * epd
+        return out
+
+    idx_src, sub_clear, sub_from = None, None, set()
+    for l in body:
+        m = re.fullmatch(r"(v?)movdq[au] ([xy]mm\d+), \[state \+ _lens \+ (\d+)\*(16|32)\]", l)
+        if m:
+            off, sz = int(m.group(3)) * int(m.group(4)), int(m.group(4))
+            lanes = [(frozenset([(off + 4 * d) // (W // 8)]), "w" if epd == 1 else ("lo", "hi")[d % 2], 0) for d in range(sz // 4)]
+            put(m.group(2), lanes, bool(m.group(1)))
+            loaded[rn(m.group(2))[0]] = (off, sz)
+            continue
+        m = re.fullmatch(r"(v?)movdq[au] \[state \+ _lens \+ (\d+)\*(16|32)\], ([xy]mm\d+)", l)
+        if m:
+            continue                            # the stores are checked against the loads by the caller
+        m = re.fullmatch(r"(v?)movdqa ([xy]mm\d+), ([xy]mm\d+)", l)
+        if m:
+            put(m.group(2), get(m.group(3)), bool(m.group(1)))
+            continue
+        m = re.fullmatch(r"vpminu([dq]) ([xy]mm\d+), ([xy]mm\d+), ([xy]mm\d+)", l) or None
+        m2 = re.fullmatch(r"pminu([dq]) (xmm\d+), (xmm\d+)", l)
+        if m or m2:
+            t, d, a, b = (m.group(1), m.group(2), m.group(3), m.group(4)) if m else (m2.group(1), m2.group(2), m2.group(2), m2.group(3))
+            if (t == "d") != (W == 32):
+                raise LaneCfgError("%s: %r on %d-bit lens[] elements" % (sym, l, W))
+            put(d, vmin(get(a), get(b)), bool(m))
+            continue
+        m = re.fullmatch(r"vpalignr ([xy]mm\d+), ([xy]mm\d+), ([xy]mm\d+), (\d+)", l)
+        m2 = re.fullmatch(r"palignr (xmm\d+), (xmm\d+), (\d+)", l)
+        if m or m2:
+            d, a, b, imm = (m.group(1), m.group(2), m.group(3), int(m.group(4))) if m else (m2.group(1), m2.group(1), m2.group(2), int(m2.group(3)))
+            if imm % 4:
+                raise LaneCfgError("%s: %r: byte shift not a multiple of 4" % (sym, l))
+            A, B = get(a), get(b)
+            out = []
+            for h in range(0, len(B), 4):
+                cat = B[h:h + 4] + A[h:h + 4] + [ZERO] * 4
+                out += cat[imm // 4:imm // 4 + 4]
+            put(d, out, bool(m))
+            continue
+        m = re.fullmatch(r"(v?)pshufd ([xy]mm\d+), ([xy]mm\d+), (\w+)", l)
+        if m:
+            imm, S = _num(m.group(4)), get(m.group(3))
+            out = []
+            for h in range(0, len(S), 4):
+                out += [S[h + ((imm >> (2 * k)) & 3)] for k in range(4)]
+            put(m.group(2), out, bool(m.group(1)))
+            continue
+        m = re.fullmatch(r"vperm2i128 (ymm\d+), (ymm\d+), (ymm\d+), (\w+)", l)
+        if m:
+            imm, A, B = _num(m.group(4)), get(m.group(2)), get(m.group(3))
+            if imm & 0x88:
+                raise LaneCfgError("%s: %r: zeroing form not understood" % (sym, l))
+            halves = [A[:4], A[4:], B[:4], B[4:]]
+            put(m.group(1), halves[imm & 3] + halves[(imm >> 4) & 3], True)
+            continue
+        m = re.fullmatch(r"vextracti128 (xmm\d+), (ymm\d+), (\w+)", l)
+        if m:
+            S = get(m.group(2))
+            put(m.group(1), S[4:] if _num(m.group(3)) & 1 else S[:4], True)
+            continue
+        m = re.fullmatch(r"v?movd DWORD\(idx\), (xmm\d+)", l)
+        if m:
+            v = get(m.group(1))[0]
+            if W != 32 or not isinstance(v, tuple) or v[1] != "w" or v[2]:
+                raise LaneCfgError("%s: idx is not taken from a minimum of lens[] words (%s)" % (sym, v))
+            idx_src = v[0]
+            continue
+        m = re.fullmatch(r"v?movq idx, (xmm\d+)", l)
+        if m:
+            v = get(m.group(1))[:2]
+            if W != 64 or not all(isinstance(x, tuple) and x[2] == 0 for x in v) or [x[1] for x in v] != ["lo", "hi"] or v[0][0] != v[1][0]:
+                raise LaneCfgError("%s: idx is not taken from a minimum of lens[] words (%s)" % (sym, v))
+            idx_src = v[0][0]
+            continue
+        m = re.fullmatch(r"vpand ([xy]mm\d+), ([xy]mm\d+), \[rel (\w+)\]", l)
+        m2 = re.fullmatch(r"pand (xmm\d+), \[rel (\w+)\]", l)
+        if m or m2:
+            d, a, lab = (m.group(1), m.group(2), m.group(3)) if m else (m2.group(1), m2.group(1), m2.group(2))
+            A = get(a)
+            vals = data.get(lab) or []
+            dw = [x for q in vals for x in (q & 0xFFFFFFFF, q >> 32)]
+            if len(dw) < len(A):
+                raise LaneCfgError("%s: mask constant %s is shorter than the register it masks" % (sym, lab))
+            out = []
+            for v, mk in zip(A, dw):
+                if mk == 0 or v == ZERO:
+                    out.append(ZERO)
+                elif v == JUNK:
+                    out.append(JUNK)
+                elif mk == 0xFFFFFFFF:
+                    out.append(v)
+                else:
+                    low = (mk & -mk).bit_length() - 1
+                    if mk != (0xFFFFFFFF >> low << low) or v[2]:
+                        raise LaneCfgError("%s: mask constant %s: dword 0x%x is not of the form ~(2^k-1)" % (sym, lab, mk))
+                    out.append((v[0], v[1], low))
+            put(d, out, bool(m))
+            continue
+        m = re.fullmatch(r"vpsub([dq]) ([xy]mm\d+), ([xy]mm\d+), ([xy]mm\d+)", l)
+        m2 = re.fullmatch(r"psub([dq]) (xmm\d+), (xmm\d+)", l)
+        if m or m2:
+            t, d, a, b = (m.group(1), m.group(2), m.group(3), m.group(4)) if m else (m2.group(1), m2.group(2), m2.group(2), m2.group(3))
+            n = rn(a)[0]
+            if d != a or n not in loaded:
+                raise LaneCfgError("%s: %r does not subtract from an unchanged lens[] vector" % (sym, l))
+            off, sz = loaded[n]
+            Bv = get(b)
+            for k in range(0, sz // 4, epd):
+                e = Bv[k:k + epd]
+                if epd == 1:
+                    ok = isinstance(e[0], tuple) and e[0][1] == "w"
+                    cl = e[0][2] if ok else None
+                    src = e[0][0] if ok else None
+                else:
+                    # (dword-wise subtraction of {0, hi} is the 64-bit subtraction: no borrow out of the zero half)
+                    ok = isinstance(e[1], tuple) and e[1][1] == "hi" and (e[0] == ZERO or (isinstance(e[0], tuple) and e[0][1] == "lo" and e[0][0] == e[1][0] and t == "q"))
+                    cl = (32 + e[1][2] if e[0] == ZERO else (e[0][2] if ok and e[1][2] == 0 else None)) if ok else None
+                    src = e[1][0] if ok else None
+                if not ok or cl is None or (t == "d" and epd == 2 and e[0] != ZERO):
+                    raise LaneCfgError("%s: %r: lane %d is not reduced by the masked minimum (%s)" % (sym, l, (off + 4 * k) // (W // 8), e))
+                if sub_clear not in (None, cl) or (idx_src is not None and src != idx_src):
+                    raise LaneCfgError("%s: %r: lanes are reduced by different amounts" % (sym, l))
+                sub_clear = cl
+                sub_from.add((off + 4 * k) // (W // 8))
+            regs_n = list(regs[n])
+            regs[n] = regs_n                    # (value now lens - min: only stored back)
+            continue
+        if re.search(r"\b[xy]mm\d+\b", l):
+            raise LaneCfgError("%s: vector instruction %r not understood in the min search" % (sym, l))
+    if idx_src is None or sub_clear is None:
+        raise LaneCfgError("%s: vector min search: no extraction of the minimum / no subtraction found" % sym)
+    return idx_src, sub_clear, sub_from
+
+
 def _scan_and_min(body, data, sym):
     """facts of the min search / subtraction block"""
     r = {}
@@ -236,6 +409,7 @@ def _scan_and_min(body, data, sym):
     if offs[0] != 0 or any(offs[k] + loaded[offs[k]] != offs[k + 1] for k in range(len(offs) - 1)):
         raise LaneCfgError("%s: min search does not cover a prefix of lens[]: %s" % (sym, loaded))
     r["scan_bytes"] = nbytes
+    vector = W is None
     if W is None:
         if any(re.match(r"v?pminud ", l) for l in body):
             W = 32
@@ -244,12 +418,6 @@ def _scan_and_min(body, data, sym):
     if W not in (32, 64):
         raise LaneCfgError("%s: cannot tell the lens[] element width" % sym)
     r["W"] = W
-    # unsigned minimum: cmovb chains / pminu*; the scalar chain must start from lens0 and visit every loaded word
-    scal = [l for l in body if re.fullmatch(r"cmovb idx, lens\d", l)]
-    if scal and (len(scal) != nbytes // (W // 8) - 1 or "mov idx, lens0" not in body):
-        raise LaneCfgError("%s: scalar min chain does not visit every loaded lens[] word" % sym)
-    if any(re.match(r"cmov(a|ae|be|g|l|ge|le|nb|na)\w* idx, lens", l) for l in body):
-        raise LaneCfgError("%s: min search uses an unexpected comparison" % sym)
     stored = {}
     for l in body:
         for pat, sz in ((r"mov \[state \+ _lens \+ (\d+)\*4\], DWORD\(lens\d\)", 4), (r"mov \[state \+ _lens \+ (\d+)\*8\], lens\d", 8),
@@ -261,20 +429,28 @@ def _scan_and_min(body, data, sym):
         raise LaneCfgError("%s: subtraction stores %s differ from min-search loads %s" % (sym, stored, loaded))
     _, m = _one(r"and idx, (0x[0-9A-Fa-f]+)", body, "and idx, mask", sym)
     r["idx_bits"] = _lowbits(_num(m.group(1)), sym + " idx mask")
-    _, m = _one(r"and len2, ~(0x[0-9A-Fa-f]+)", body, "", sym, allow_none=True)
-    if m:
-        r["clear_bits"] = _lowbits(_num(m.group(1)), sym + " len2 mask")
+    nelem = nbytes // (W // 8)
+    if vector:
+        src, clear, sub_from = _vec_min(body, data, W, sym)
+        if src != frozenset(range(nelem)):
+            raise LaneCfgError("%s: the value idx/len2 are taken from is the minimum of lens[%s] only, not of all %d scanned lanes" % (
+                sym, ",".join(str(x) for x in sorted(src)), nelem))
+        if sub_from != set(range(nelem)):
+            raise LaneCfgError("%s: the minimum is subtracted from lanes %s only" % (sym, sorted(sub_from)))
+        r["clear_bits"] = clear
     else:
-        _, m = _one(r"v?pand [xy]mm\d+, (?:[xy]mm\d+, )?\[rel (\w+)\]", body, "vector length mask", sym)
-        lab = m.group(1)
-        vals = data.get(lab)
-        if not vals or len(vals) < 2 or vals[1] != 0:
-            raise LaneCfgError("%s: mask constant %s not understood" % (sym, lab))
-        v = vals[0]
-        low = (v & -v).bit_length() - 1
-        if v != ((1 << W) - 1) >> low << low:
-            raise LaneCfgError("%s: mask constant %s = 0x%x is not ~(2^k-1) over the element" % (sym, lab, v))
-        r["clear_bits"] = low
+        # unsigned minimum by a cmovb chain that starts from lens0 and visits every loaded word
+        scal = [l for l in body if re.fullmatch(r"cmovb idx, lens\d", l)]
+        if len(scal) != nelem - 1 or "mov idx, lens0" not in body or \
+                sorted(scal) != ["cmovb idx, lens%d" % k for k in range(1, nelem)] or \
+                any("cmp lens%d, idx" % k not in body for k in range(1, nelem)):
+            raise LaneCfgError("%s: scalar min chain does not visit every loaded lens[] word" % sym)
+        if any(re.match(r"cmov\w+ idx, lens", l) and not l.startswith("cmovb ") for l in body):
+            raise LaneCfgError("%s: min search uses an unexpected comparison" % sym)
+        if any("sub lens%d, len2" % k not in body for k in range(nelem)):
+            raise LaneCfgError("%s: the minimum is not subtracted from every scanned lane" % sym)
+        _, m = _one(r"and len2, ~(0x[0-9A-Fa-f]+)", body, "and len2, ~mask", sym)
+        r["clear_bits"] = _lowbits(_num(m.group(1)), sym + " len2 mask")
     _, m2 = _one(r"shr len2, (\d+)", body, "shr len2", sym)
     r["shift"] = int(m2.group(1))
     if len({mm.group(1) for l in body for mm in [re.fullmatch(r"shr len2, (\d+)", l)] if mm}) != 1:
